@@ -102,6 +102,26 @@ def segments (ps : List Nat) : List (List Nat) × List Nat :=
       if p ≥ 3000000 then ((p :: acc.2).reverse :: acc.1, []) else (acc.1, p :: acc.2)) ([], [])
   (segs.reverse, cur.reverse)
 
+/-- which part of a block's waveform is off (only called when `Spec.acceptsBlock` rejects) -/
+def diagnose (bs : List Byte) (measured : List Nat) : String :=
+  match bs with
+  | [] => "empty-block"
+  | flag :: _ =>
+    let pilot := measured.takeWhile (fun a => Spec.pulseOk 2168 a)
+    let restM := measured.drop pilot.length
+    let body := [667, 735] ++ bs.flatMap Spec.bytePulses
+    let pilotOk := if flag = 0 then pilot.length == 8063 else pilot.length ≥ 3223
+    if !pilotOk then
+      (if restM.isEmpty || Spec.pulseOk 667 (restM.headD 0) then "pilot-count" else "pilot-length")
+    else
+      let idx := (body.zip restM).findIdx? (fun (n, a) => !Spec.pulseOk n a)
+      match idx with
+      | some 0 => "sync1"
+      | some 1 => "sync2"
+      | some i => if body.getD i 0 == 855 then "bit0-length" else "bit1-length"
+      | none =>
+        if restM.length != body.length + 1 then "pulse-count" else "pause"
+
 def verdictOf (blocks : List (List Byte)) (tailLen : Nat) (edges : List Edge) (stop : Option Nat) : String :=
   if tailLen ≥ 2 || blocks.any (·.isEmpty) then "undecided" else
   let (segs, rest) := segments (pulsesOf edges stop)
@@ -109,7 +129,7 @@ def verdictOf (blocks : List (List Byte)) (tailLen : Nat) (edges : List Edge) (s
     | _, _, [] => "ok"
     | i, [], _ :: _ => s!"violates:more-than-{i}-blocks-played"
     | i, b :: bs, s :: ss =>
-      if Spec.acceptsBlock b s then go (i + 1) bs ss else s!"violates:block-{i}"
+      if Spec.acceptsBlock b s then go (i + 1) bs ss else s!"violates:block-{i}:{diagnose b s}"
   let v := go 0 blocks segs
   if v != "ok" then v
   else if stop.isSome && segs.length < blocks.length then s!"violates:stopped-after-{segs.length}-of-{blocks.length}-blocks"
